@@ -6,6 +6,7 @@ from sa.optree import tree, show
 from sa.props.c05 import check_operators, V, C, MUL, ADD
 from sa.report import Incomplete
 from sa.rules_template import bind_call
+from sa.npcanon import npcall, npname
 
 K = 'synapgrad.cpu_ops.'
 
@@ -58,10 +59,10 @@ def check(model, R, tier):
     for n, red in (('max_pool1d', 'max'), ('max_pool2d', 'max'), ('avg_pool1d', 'mean'), ('avg_pool2d', 'mean')):
         f, b = model.func(K + n + '_forward'), model.func(K + n + '_backward')
         ew = [c for c in ast.walk(f.node) if isinstance(c, ast.Call) and dotted(c.func) == 'extract_windows']
-        rd = [c for c in ast.walk(f.node) if isinstance(c, ast.Call) and isinstance(c.func, ast.Attribute) and c.func.attr in ('max', 'mean')]
+        rd = [c for c in ast.walk(f.node) if isinstance(c, ast.Call) and npname(model, f, c) in ('max', 'mean', 'amax')]
         pw = [c for c in ast.walk(b.node) if isinstance(c, ast.Call) and dotted(c.func) == 'place_windows']
         rb = [c for c in ast.walk(b.node) if isinstance(c, ast.Call) and dotted(c.func) in ('max_backward', 'mean_backward')]
-        ok = len(ew) == 1 and len(rd) == 1 and rd[0].func.attr == red and 'windows' in names_in(rd[0].func.value) and len(pw) == 1 and len(rb) == 1 and dotted(rb[0].func) == red + '_backward' \
+        ok = len(ew) == 1 and len(rd) == 1 and npname(model, f, rd[0]) == red and 'windows' in names_in(rd[0].args[0]) and len(pw) == 1 and len(rb) == 1 and dotted(rb[0].func) == red + '_backward' \
             and norm(pw[0].args[0]) == 'windows_grad'
         R.ob('C14.TREE', f.qualname, 'extract_windows ; %s  /  %s_backward ; place_windows' % (red, red), ok, 'pooling = window extraction followed by %s over the window axes' % red, f.loc)
     # ---- mean_backward = sum_backward followed by division by the count
